@@ -98,6 +98,7 @@ func sharedState(repo string) (sf sharedFacts) {
 		files = append(files, f)
 	}
 	funcs := map[string]*ast.FuncDecl{}
+	methods := map[string][]*ast.FuncDecl{} // by method name, whatever the receiver type
 	pkgVars := map[string]bool{}
 	pkgSpecs := map[*ast.ValueSpec]bool{}
 	imports := map[string]bool{}
@@ -115,6 +116,9 @@ func sharedState(repo string) (sf sharedFacts) {
 			case *ast.FuncDecl:
 				if x.Recv == nil && x.Body != nil {
 					funcs[x.Name.Name] = x
+				}
+				if x.Recv != nil && x.Body != nil {
+					methods[x.Name.Name] = append(methods[x.Name.Name], x)
 				}
 			case *ast.GenDecl:
 				if x.Tok == token.VAR {
@@ -173,6 +177,22 @@ func sharedState(repo string) (sf sharedFacts) {
 
 	writes := map[string]bool{}
 	fresh := map[string]bool{}
+	// types of the package of which build-time code makes a value (T{…}, &T{…}, new(T)): the
+	// methods of such a value can be what the feature value's function fields are
+	builtTypes := map[string]bool{}
+	recvType := func(fd *ast.FuncDecl) string {
+		if fd.Recv == nil || len(fd.Recv.List) == 0 {
+			return ""
+		}
+		t := fd.Recv.List[0].Type
+		if st, ok := t.(*ast.StarExpr); ok {
+			t = st.X
+		}
+		if id, ok := t.(*ast.Ident); ok {
+			return id.Name
+		}
+		return ""
+	}
 	type item struct {
 		fd    *ast.FuncDecl
 		build bool
@@ -227,9 +247,21 @@ func sharedState(repo string) (sf sharedFacts) {
 			_, ok := id.Obj.Decl.(*ast.Field)
 			return ok
 		}
+		isRecv := func(id *ast.Ident) bool {
+			if id == nil || id.Obj == nil || fd.Recv == nil || len(fd.Recv.List) == 0 || !builtTypes[recvType(fd)] {
+				return false
+			}
+			f, ok := id.Obj.Decl.(*ast.Field)
+			return ok && f == fd.Recv.List[0]
+		}
 		target := func(e ast.Expr, at token.Pos) {
 			id := baseIdent(e)
 			if id == nil {
+				return
+			}
+			if _, plain := e.(*ast.Ident); !plain && !it.build && isRecv(id) {
+				// a field of the value the feature's methods were taken from: one per feature value
+				writes["recv:"+id.Name] = true
 				return
 			}
 			if isPkgVar(id) {
@@ -240,9 +272,31 @@ func sharedState(repo string) (sf sharedFacts) {
 				writes[id.Name] = true
 			}
 		}
+		if it.build {
+			ast.Inspect(fd.Body, func(n ast.Node) bool {
+				switch x := n.(type) {
+				case *ast.CompositeLit:
+					if id, ok := x.Type.(*ast.Ident); ok {
+						builtTypes[id.Name] = true
+					}
+				case *ast.CallExpr:
+					if id, ok := x.Fun.(*ast.Ident); ok && id.Name == "new" && len(x.Args) == 1 {
+						if t, ok := x.Args[0].(*ast.Ident); ok {
+							builtTypes[t.Name] = true
+						}
+					}
+				}
+				return true
+			})
+		}
 		notRef := map[*ast.Ident]bool{} // field names: selectors and keys of composite literals
+		called := map[*ast.SelectorExpr]bool{}
 		ast.Inspect(fd.Body, func(n ast.Node) bool {
 			switch x := n.(type) {
+			case *ast.CallExpr:
+				if se, ok := x.Fun.(*ast.SelectorExpr); ok {
+					called[se] = true
+				}
 			case *ast.SelectorExpr:
 				notRef[x.Sel] = true
 			case *ast.KeyValueExpr:
@@ -277,9 +331,24 @@ func sharedState(repo string) (sf sharedFacts) {
 						target(x.X, x.Pos())
 					}
 				}
+			case *ast.SelectorExpr:
+				// a method of the package, called or taken as a value (StreamFeature{Negotiate: f.negotiate})
+				if ms := methods[x.Sel.Name]; len(ms) > 0 {
+					if id, ok := x.X.(*ast.Ident); !ok || !(id.Obj == nil && imports[id.Name] && !pkgVars[id.Name]) {
+						build := it.build && !inLit(x.Pos()) && called[x]
+						for _, m := range ms {
+							if m != fd && builtTypes[recvType(m)] {
+								work = append(work, item{m, build, it.depth + 1})
+							}
+						}
+					}
+				}
 			case *ast.CallExpr:
 				if se, ok := x.Fun.(*ast.SelectorExpr); ok {
 					id := baseIdent(se.X)
+					if _, direct := se.X.(*ast.Ident); !direct && !it.build && isRecv(id) {
+						writes["recv:"+id.Name+"."+se.Sel.Name+"()"] = true
+					}
 					if isPkgVar(id) {
 						writes["pkg:"+id.Name+"."+se.Sel.Name+"()"] = true
 					} else if it.build && inLit(x.Pos()) && ownVar(id) && !isParam(id) {
